@@ -31,6 +31,7 @@ def build(kind):
     os.makedirs(BIN, exist_ok=True)
     out = os.path.join(BIN, "vrun-" + kind)
     cmd = ["go", "build", "-tags", "verif", "-o", out]
+    moddir = None
     alt = os.environ.get("VERIF_REPO")  # optional: build against another checkout (sweeps on a snapshot, seeded worktrees)
     if alt and os.path.abspath(alt) != "/repo":
         out = os.path.join(BIN, "vrun-%s-%s" % (kind, hashlib.md5(alt.encode()).hexdigest()[:8]))
@@ -45,6 +46,8 @@ def build(kind):
     # go.sum is seeded from the repository so that the build is hermetic
     t0 = time.time()
     p = subprocess.run(cmd, cwd=HARNESS, env=ENV, stdout=subprocess.PIPE, stderr=subprocess.STDOUT, text=True)
+    if moddir:
+        shutil.rmtree(moddir, ignore_errors=True)
     if p.returncode != 0:
         log("BUILD FAILED (%s):\n%s" % (kind, p.stdout[-6000:]))
         sys.exit(2)
